@@ -1287,6 +1287,33 @@ def model_value(m, e):
     return str(v)
 
 
+_FEXP = z3.Function('float_exp', z3.RealSort(), z3.RealSort())
+
+
+def float_exp(x):
+    """exp as FLOATS compute it: non-negative and only WEAKLY increasing (it saturates: underflow to 0, rounding to 1),
+    an uninterpreted function with pairwise weak-monotonicity axioms.  Sound for float code; a counterexample has
+    to be realised by the replayer with magnitudes at which float exp really saturates."""
+    p = CTX.cur
+    if isinstance(x, NXR):
+        v = -x.x.v
+        inf = x.x.inf
+    elif isinstance(x, S):
+        v, inf = _real(x.e), False
+    else:
+        return math.exp(x) if x != -INF else 0.0
+    t = _FEXP(v)
+    seen = p.notes.setdefault('fexps', [])
+    ax = [t >= 0]
+    for (a, ta) in seen:
+        ax.append(z3.And(z3.Implies(a <= v, ta <= t), z3.Implies(a >= v, ta >= t)))
+    axiom(z3.And(*ax))
+    seen.append((v, t))
+    if isinstance(inf, bool):
+        return 0.0 if inf else S(t)
+    return S(z3.If(inf, z3.RealVal(0), t))
+
+
 class NXR:
     """negation of an extended real (value or -inf); only ordering is needed
     (align_text takes max / argmax of negated costs)."""
@@ -1295,6 +1322,9 @@ class NXR:
 
     def __init__(self, x):
         self.x = XR.of(x)
+
+    def __exp__(self):
+        return float_exp(self)
 
     @staticmethod
     def of(o):
